@@ -25,17 +25,20 @@ def plan(tier, seed):
         gs.append(Group('DWT1DInverse[%s,wavelet]' % m, M.g_inverse_module, (1, m, 'wavelet'), functions=[('dwt.transform1d', 'DWT1DInverse.forward')]))
         gs.append(Group('DWTInverse[%s,tuple4]' % m, M.g_inverse_module, (2, m, 'tuple4'), functions=[('dwt.transform2d', 'DWTInverse.forward')]))
     gs.append(Group('canary:wrong-channel-map', G.g_slices, ('afb1d', 'zero', 3), {'canary': True}, canary=True))
-    try:
-        from . import c07_more
-        gs += c07_more.groups(tier)
-    except ImportError:
-        pass
+    from . import c07_more
+    gs += c07_more.groups(tier)
     jobs = [{'fn': 'slices', 'cfg': {'fn': w, 'mode': m}, 'grid': {'B': [1, 2], 'C': [1, 3], 'N': [3, 6], 'L2': [1, 2]}}
             for w in ('DWT1DForward', 'DWTForward', 'DWT1DInverse', 'DWTInverse') for m in MODES]
+    # DTCWT / SWT on multi-channel batches against the per-slice references (the run-time contracts use N, C >= 2)
+    jobs += [{'fn': 'dtcwt_forward', 'cfg': {}, 'grid': {'J': [1, 2, 3], 'H': [9, 16], 'W': [12]}},
+             {'fn': 'dtcwt_inverse', 'cfg': {}, 'grid': {'J': [1, 2, 3], 'H': [9, 16], 'W': [12]}},
+             {'fn': 'dtcwt_inverse', 'cfg': {'absent': {'low': 'none'}}, 'grid': {'J': [2, 3], 'H': [8, 16], 'W': [16]}},
+             {'fn': 'dtcwt_slices', 'cfg': {}, 'grid': {'J': [1, 2, 3], 'C': [2, 3]}},
+             {'fn': 'swt_forward', 'cfg': {'wave': 'db2'}, 'grid': {'J': [1, 2], 'H': [8], 'W': [12]}}]
     return {
         'groups': gs,
         'native': [('bounded.py', [write_jobs('C07', jobs), seed], 'bounded: T(a x + b y) = a T(x) + b T(y), T(0)=0 and slice-wise action on the real modules')],
-        'level': 'proof', 'trusted_base': TRUSTED,
+        'level': 'proof', 'trusted_base': TRUSTED + ['reference dtcwt 0.14 (oracle for the DTCWT specs)'],
         'assumptions': ASSUMPTIONS + ['slice obligations carry NO precondition on sizes for afb1d/sfb1d (signals shorter than the filter and the '
                                       'regions of the known findings are included); one-level Functions are checked through the 1-D contracts'],
         'explanation': 'linear-by-construction (every element of every result is a linear combination with data-independent coefficients: the '
